@@ -1,6 +1,7 @@
 """C17 — the tree visitor performs the documented traversal for any tree and callback."""
 import os
 import random
+import sys
 
 from vflib import core, build
 from oracle import refptr, refvisit
@@ -14,6 +15,7 @@ CODES = [refvisit.CONTINUE] * 7 + [refvisit.SKIP, refvisit.POP, refvisit.STOP, r
 
 
 def shard_fn(shard, nshards, seed, tier, exe, npairs):
+    sys.setrecursionlimit(100000)
     rng = random.Random("%d/%d/c17" % (seed, shard))
     sh = core.Shard()
     cases, meta = [], {}
@@ -21,7 +23,24 @@ def shard_fn(shard, nshards, seed, tier, exe, npairs):
     while i < npairs // nshards:
         toks = gen_tree(rng, budget=[rng.choice([1, 4, 10, 25])])
         deep = rng.random() < 0.06
-        if deep:
+        vdeep = rng.random() < (0.0006 if tier == "quick" else 0.0002)
+        if vdeep:
+            # nesting in the thousands (the traversal is recursive; any built-in ceiling on the depth it is willing to follow would show here):
+            # levels around every power of two from 2^10 to 2^12 and some in between, few siblings so that the call log stays small
+            deep = True
+            mode = rng.choice(["arrays", "objects", "mixed"])
+            nlv = rng.choice([300, 1000, 1023, 1024, 1025, 1500, 2047, 2048, 2049, 2050, 3000, 4095, 4096, 4097, 5000, 6000])
+            toks = [rng.choice(["n", "i7", "[ ]", "{ }"])]
+            toks = toks[0].split()
+            for lvl in range(nlv):
+                sib = ["i%d" % lvl] if lvl % 97 == 0 else []
+                if mode == "arrays" or (mode == "mixed" and rng.random() < 0.5):
+                    toks = ["["] + sib + toks + ["]"]
+                else:
+                    toks = ["{"] + sum((["k" + b"s".hex(), t] for t in sib), []) + ["k" + b"c".hex()] + toks + ["}"]
+            sh.count("trees.nested_300_to_6000_levels." + mode)
+            sh.count("trees.nested_levels.%d" % nlv)
+        elif deep:
             # nesting far beyond anything the parser would produce (trees are built through the API): 30..150 levels, arrays and objects mixed
             # or pure, with siblings before and after the nested child so that indices and keys differ from level to level
             mode = rng.choice(["arrays", "objects", "mixed"])
@@ -37,6 +56,8 @@ def shard_fn(shard, nshards, seed, tier, exe, npairs):
         scheds = []
         for _ in range(rng.choice([2, 4, 8])):
             n = rng.choice([0, 1, 2, 5, 12, 30]) if not deep else rng.choice([0, 5, 60, 150, 400])
+            if vdeep:
+                n = rng.choice([0, 0, nlv - 1, nlv + 2, 2 * nlv, 2 * nlv + 5])
             m = rng.random()
             if m < 0.3:
                 sched = [rng.choice(CODES) for _ in range(n)]
@@ -49,6 +70,8 @@ def shard_fn(shard, nshards, seed, tier, exe, npairs):
             else:
                 sched = [rng.choice([0, 0, 0, refvisit.SKIP, refvisit.POP]) for _ in range(n)]
             default = rng.choice([0, 0, 0, refvisit.SKIP, refvisit.POP, refvisit.STOP])
+            if vdeep and not scheds:
+                sched, default = [], 0  # at least one traversal that reaches the innermost node
             scheds.append((sched, default))
             # a fifth of the schedules have callbacks that run a nested json_c_visit on another tree (ending in an error, or normally) before they return
             nest = rng.random() < 0.2
